@@ -850,6 +850,10 @@ def main(ctx):
                            "plain []interface{} wrapper: script view / Go value differ from the documented behaviour: %s -> %s (expected %s)" % (l2, (o or ["?"])[0][:300], (m2 or ["?"])[0]),
                            {"kind": "history", "lines": [l2], "expected": m2, "observed": o})
                     continue
+                if gname == "B":
+                    if ctx.stats.get("B_reported", 0) >= 3:
+                        continue          # three replays are enough; the obligation records the count
+                    ctx.stats["B_reported"] = ctx.stats.get("B_reported", 0) + 1
                 report("%s:%s" % (what, re.sub(r"\W+", "-", both[i])[:40]), "%s: implementation %s, documented behaviour (model) %s" % (both[i], hres[i][:300], (mres[i] or "")[:300]),
                        {"kind": "history" if gname == "M" else "input", "lines": [both[i]], "expected": [mres[i]], "observed": [hres[i]]})
     # the judge for W / V histories: the Lean spec model (Spec.lean), run through the driver on the same lines
